@@ -382,8 +382,8 @@ def s_parse_ident(ex, callee, args, dest_ty):
         raise Unsupported("parse_ident on non file-backed bytes")
     # contract (engine A, C10/C01): Err if fewer than 16 bytes; otherwise a function of the 16 bytes
     short = z3.ULT(sl.len, bv(16))
-    okf = F("ident_ok", BV64)
-    is32 = F("ident_is_elf32", BV64)
+    okf = F("ident_ok", BV64, z3.BitVecSort(8))
+    is32 = F("ident_is_elf32", BV64, z3.BitVecSort(8))
     i = ex.ctx.choose([("short", short), ("ok32", z3.And(z3.Not(short), okf(fp) == 1, is32(fp) == 1)),
                        ("ok64", z3.And(z3.Not(short), okf(fp) == 1, is32(fp) != 1)), ("bad", z3.And(z3.Not(short), okf(fp) != 1))])
     if i in (0, 3):
